@@ -443,15 +443,22 @@ impl DateFilter for ds::MonthdayRange {
                     ));
                 }
 
-                Some(next_change_from_bounds(
+                // The filter pairs the bounds found around the year of the evaluated date:
+                // use the same bounds and don't skip the start of next year, where the filter
+                // will consider other bounds.
+                let next_year = NaiveDate::from_ymd_opt(year + 1, 1, 1).unwrap_or(DATE_END.date());
+
+                let next_change = next_change_from_bounds(
                     date,
-                    (year - 1..=year + 10)
+                    (year - 1..=year + 1)
                         .filter_map(|y| date_on_year(*start, y, valid_ymd_after))
                         .map(|d| start_offset.apply(d)),
-                    (year - 1..=year + 10)
+                    (year - 1..=year + 1)
                         .filter_map(|y| date_on_year(*end, y, valid_ymd_before))
                         .map(|d| end_offset.apply(d)),
-                ))
+                );
+
+                Some(std::cmp::min(next_change, next_year))
             }
         }
     }
